@@ -541,6 +541,7 @@ def graph_variants(kind):
                 ("networkx", lambda: mk_nx(False, 4, es), ["mknx", False, 4, sorted(es)]),
                 ("networkx-named", lambda: nx.relabel_nodes(mk_nx(False, 4, es), {1: "a", 2: "b", 3: "c", 4: "d"}), None),
                 ("wrong-class", lambda: mk_graph(G.DirectedGraph, 3, [[1, 2]]), ["mkdig", 3, [[1, 2]]]),
+                ("edgeless", lambda: G.Graph(3), ["mkgraph", 3, []]),
                 ("empty", lambda: G.Graph(0), ["mkgraph", 0, []])]
     if kind == "dag":
         es = [[1, 2], [1, 3], [2, 4], [3, 4]]
@@ -557,7 +558,10 @@ def graph_variants(kind):
             g.add_nodes_from(["r1", "r2"], bipartite=1)
             g.add_edges_from([("l%d" % u, "r%d" % v) for u, v in es])
             return g
+        sp = [[1, 2], [2, 1], [3, 2]]
         return [("cnfgen", lambda: mk_graph_b(3, 2, es), ["mkbip", 3, 2, es]),
+                ("cnfgen-sparse", lambda: mk_graph_b(3, 2, sp), ["mkbip", 3, 2, sp]),
+                ("cnfgen-edgeless", lambda: mk_graph_b(2, 2, []), ["mkbip", 2, 2, []]),
                 ("networkx", nxb, None),
                 ("networkx-unlabelled", lambda: mk_nx(False, 3, [[1, 2]]), ["mknx", False, 3, [[1, 2]]]),
                 ("wrong-class", lambda: mk_graph(G.Graph, 3, [[1, 2]]), ["mkgraph", 3, [[1, 2]]])]
